@@ -236,7 +236,37 @@ func (w *cfw) handler(h map[string]any) {
 	case "echo":
 		w.line("echo")
 	case "tls":
-		w.line("tls")
+		cps, ok := h["connection_policies"].([]any)
+		if !ok {
+			w.line("tls")
+			return
+		}
+		w.open("tls")
+		for _, c := range cps {
+			cp := c.(map[string]any)
+			w.open("connection_policy")
+			if v, ok := cp["alpn"]; ok {
+				w.line("alpn %s", strs(v))
+			}
+			if v, ok := cp["cipher_suites"]; ok {
+				w.line("ciphers %s", strs(v))
+			}
+			if v, ok := cp["curves"]; ok {
+				w.line("curves %s", strs(v))
+			}
+			if v, ok := cp["default_sni"]; ok {
+				w.line("default_sni %s", v)
+			}
+			if mn, ok := cp["protocol_min"]; ok {
+				if mx, ok := cp["protocol_max"]; ok {
+					w.line("protocols %s %s", mn, mx)
+				} else {
+					w.line("protocols %s", mn)
+				}
+			}
+			w.close()
+		}
+		w.close()
 	case "proxy":
 		ups := h["upstreams"].([]any)
 		_, hasHC := h["health_checks"]
